@@ -68,6 +68,31 @@ def linear(stmts):
     return out
 
 
+def flat(stmts):
+    """``linear`` plus parallel assignments split up: ``a, b = x, y`` reads as
+    ``a = x`` followed by ``b = y`` when no target name occurs in a value (the
+    order of the two stores is then immaterial)."""
+    out = []
+    for st in linear(stmts):
+        if isinstance(st, ast.Assign) and len(st.targets) == 1 and \
+                isinstance(st.targets[0], ast.Tuple) and \
+                isinstance(st.value, ast.Tuple) and \
+                len(st.targets[0].elts) == len(st.value.elts):
+            tn = {n.id for t in st.targets[0].elts for n in ast.walk(t)
+                  if isinstance(n, ast.Name) and isinstance(n.ctx, ast.Store)}
+            vn = {n.id for v in st.value.elts for n in ast.walk(v)
+                  if isinstance(n, ast.Name)}
+            if not (tn & vn):
+                for t, v in zip(st.targets[0].elts, st.value.elts):
+                    a = ast.Assign(targets=[t], value=v)
+                    ast.copy_location(a, st)
+                    a._parent = getattr(st, '_parent', None)
+                    out.append(a)
+                continue
+        out.append(st)
+    return out
+
+
 def own_walk(st):
     """ast.walk over a statement of a ``linear`` sequence, without the arm
     that ``linear`` spliced in as the continuation."""
@@ -86,6 +111,44 @@ def own_walk(st):
             yield from ast.walk(p)
         return
     yield from ast.walk(st)
+
+
+def fall_guards(st):
+    """Facts that hold when control falls out of the bottom of the ``if``
+    statement ``st`` (as far as they form a conjunction): for the chain
+    ``if a: <exit> elif b: <exit>`` that is  not a, not b."""
+    out = []
+    if always_exits(st.body) and not always_exits(st.orelse or []):
+        out.append((st.test, False))
+        if len(st.orelse) == 1 and isinstance(st.orelse[0], ast.If):
+            out.extend(fall_guards(st.orelse[0]))
+    elif st.orelse and always_exits(st.orelse) and \
+            not always_exits(st.body):
+        out.append((st.test, True))
+        if len(st.body) == 1 and isinstance(st.body[0], ast.If):
+            out.extend(fall_guards(st.body[0]))
+    return out
+
+
+def step_guards(fn_node, target):
+    """Guards that decide whether ``target`` runs WITHIN one iteration of its
+    innermost enclosing loop (the loop's own test -- ``while k < n`` -- is not
+    a condition on the step; without a loop: all guards)."""
+    pm = parent_map(fn_node)
+    cur = target
+    loop = None
+    while cur in pm:
+        cur = pm[cur]
+        if isinstance(cur, (ast.For, ast.While)):
+            loop = cur
+            break
+    if loop is None:
+        return guards_of(fn_node, target)
+    gs = guards_of(loop, target)
+    if isinstance(loop, ast.While):
+        d0 = ast.dump(loop.test)
+        gs = [(t, p) for t, p in gs if not (p and ast.dump(t) == d0)]
+    return gs
 
 
 def guards_of(fn_node, target):
@@ -117,12 +180,7 @@ def guards_of(fn_node, target):
                     idx = block.index(node)
                     for prev in block[:idx]:
                         if isinstance(prev, ast.If):
-                            if always_exits(prev.body) and not \
-                                    always_exits(prev.orelse or []):
-                                guards.append((prev.test, False))
-                            elif prev.orelse and always_exits(prev.orelse) \
-                                    and not always_exits(prev.body):
-                                guards.append((prev.test, True))
+                            guards.extend(reversed(fall_guards(prev)))
                         if isinstance(prev, ast.Assert):
                             guards.append((prev.test, True))
                     if isinstance(par, ast.If):
